@@ -805,3 +805,453 @@ Proof.
   rewrite <- Hs. apply CfiRunProofs.no_silent_limit_thm; [|exact Hcap|exact Hlim].
   apply valid_asize_of. exact Hasz.
 Qed.
+
+(* ------------------------------------------------------------------ *)
+(* D. the writer's primitives produce the spec encodings of CfiSpec (C05) *)
+(* ------------------------------------------------------------------ *)
+
+Require GV.Spec.CfiSpec GV.Model.CfiRd GV.Proofs.CfiRdProofs.
+
+Lemma lor128_byte x : x < 256 -> n2b (N.lor x CONT) = n2b (128 + x mod 128).
+Proof.
+  intros H.
+  assert (E : (b2n (n2b (N.lor x CONT)) =? b2n (n2b (128 + x mod 128))) = true).
+  { apply (forall_lt (fun x => b2n (n2b (N.lor x CONT)) =? b2n (n2b (128 + x mod 128))) 256); [vm_compute; reflexivity|exact H]. }
+  apply b2n_inj. lia.
+Qed.
+
+Lemma write_uleb_fuel_enc : forall f1 f2 v,
+  f1 <> O -> f2 <> O -> v < 2 ^ (7 * N.of_nat f1) -> v < 2 ^ (7 * N.of_nat f2) ->
+  write_uleb_fuel f1 v = Ok (enc_uleb_fuel f2 v).
+Proof.
+  induction f1 as [|f1 IH]; intros f2 v H1 H2 Hv1 Hv2; [congruence|].
+  destruct f2 as [|f2]; [congruence|].
+  cbn [write_uleb_fuel enc_uleb_fuel]. rewrite low7_land255, shiftr7.
+  destruct (v <? 128) eqn:E.
+  - replace (v / 128 =? 0) with true by lia. rewrite N.mod_small by lia. reflexivity.
+  - replace (v / 128 =? 0) with false by lia.
+    rewrite pow7_succ in Hv1, Hv2.
+    assert (Hf1 : f1 <> O). { intros ->. change (2 ^ (7 * N.of_nat 0)) with 1 in Hv1. lia. }
+    assert (Hf2 : f2 <> O). { intros ->. change (2 ^ (7 * N.of_nat 0)) with 1 in Hv2. lia. }
+    rewrite (IH f2 (v / 128) Hf1 Hf2) by lia. cbn [bind].
+    rewrite lor128_byte by (assert (v mod 128 < 128) by (apply N.mod_lt; lia); lia).
+    rewrite N.mod_mod by lia. reflexivity.
+Qed.
+
+Lemma write_uleb128_enc v : v < 2 ^ 64 -> write_uleb128 v = Ok (enc_uleb v).
+Proof.
+  intros Hv. unfold write_uleb128, enc_uleb. apply write_uleb_fuel_enc; try discriminate.
+  - change (7 * N.of_nat 10) with 70. apply N.lt_le_trans with (2 ^ 64); [exact Hv|]. apply N.pow_le_mono_r; lia.
+  - change (7 * N.of_nat 19) with 133. apply N.lt_le_trans with (2 ^ 64); [exact Hv|]. apply N.pow_le_mono_r; lia.
+Qed.
+
+Local Open Scope Z_scope.
+Lemma land127_mod256 z : N.land (Z.to_N (z mod 256)) 127 = Z.to_N (z mod 128).
+Proof.
+  change 127%N with (N.ones 7). rewrite N.land_ones. change (2 ^ 7)%N with 128%N. lia.
+Qed.
+
+Lemma write_sleb_fuel_enc : forall f1 f2 z,
+  f1 <> O -> f2 <> O -> - hpow f1 <= z < hpow f1 -> - hpow f2 <= z < hpow f2 ->
+  write_sleb_fuel f1 z = Ok (CfiSpec.enc_sleb_fuel f2 z).
+Proof.
+  induction f1 as [|f1 IH]; intros f2 z H1 H2 Hz1 Hz2; [congruence|].
+  destruct f2 as [|f2]; [congruence|].
+  cbn [write_sleb_fuel CfiSpec.enc_sleb_fuel]. rewrite shiftr_6_1.
+  destruct ((Z.shiftr z 6 =? 0) || (Z.shiftr z 6 =? -1)) eqn:E.
+  - apply sleb_done_iff in E.
+    replace (((z / 128 =? 0) && (z mod 128 <? 64)) || ((z / 128 =? -1) && (64 <=? z mod 128))) with true by lia.
+    rewrite land127_mod256. reflexivity.
+  - assert (E' : ~ (-64 <= z < 64)) by (rewrite <- sleb_done_iff; congruence).
+    replace (((z / 128 =? 0) && (z mod 128 <? 64)) || ((z / 128 =? -1) && (64 <=? z mod 128))) with false by lia.
+    assert (Hf1 : f1 <> O). { intros ->. rewrite hpow_1 in Hz1. lia. }
+    assert (Hf2 : f2 <> O). { intros ->. rewrite hpow_1 in Hz2. lia. }
+    rewrite hpow_succ in Hz1, Hz2 by assumption.
+    rewrite (IH f2 (z / 128) Hf1 Hf2) by lia. cbn [bind].
+    rewrite lor128_byte by lia.
+    replace (128 + Z.to_N (z mod 256) mod 128)%N with (128 + Z.to_N (z mod 128))%N by lia. reflexivity.
+Qed.
+
+Lemma write_sleb128_enc z : -9223372036854775808 <= z < 9223372036854775808 ->
+  write_sleb128 z = Ok (CfiSpec.enc_sleb z).
+Proof.
+  intros Hz. unfold write_sleb128, CfiSpec.enc_sleb. apply write_sleb_fuel_enc; try discriminate.
+  - assert (E : hpow 10 = 590295810358705651712) by (vm_compute; reflexivity). rewrite E. lia.
+  - assert (E : hpow 19 = 5444517870735015415413993718908291383296) by (vm_compute; reflexivity). rewrite E. lia.
+Qed.
+Local Close Scope Z_scope.
+
+Lemma le_bytes_le_n n v : le_bytes n v = CfiSpec.le_n n v.
+Proof. revert v. induction n as [|k IH]; intros v; cbn [le_bytes CfiSpec.le_n]; [reflexivity|]. now rewrite IH. Qed.
+Lemma enc_un_un_bytes n be v : enc_un n be v = CfiSpec.un_bytes n be v.
+Proof. unfold enc_un, be_bytes, CfiSpec.un_bytes. now rewrite le_bytes_le_n. Qed.
+
+Lemma le_n_mod : forall n v, CfiSpec.le_n n v = CfiSpec.le_n n (v mod 256 ^ N.of_nat n).
+Proof.
+  induction n as [|k IH]; intros v; cbn [CfiSpec.le_n]; [reflexivity|].
+  rewrite pow256_succ.
+  assert (Hp : 256 ^ N.of_nat k <> 0) by (apply N.pow_nonzero; lia).
+  f_equal.
+  - apply b2n_inj. rewrite !b2n_n2b. rewrite N.mod_mul_r by lia.
+    rewrite N.add_mod, N.mul_comm, N.mod_mul, N.add_0_r, !N.mod_mod by lia. reflexivity.
+  - rewrite (IH (v / 256)), (IH (v mod (256 * 256 ^ N.of_nat k) / 256)). f_equal.
+    rewrite N.mod_mul_r by lia.
+    replace ((v mod 256 + 256 * ((v / 256) mod 256 ^ N.of_nat k)) / 256) with ((v / 256) mod 256 ^ N.of_nat k).
+    + rewrite N.mod_mod by exact Hp. reflexivity.
+    + generalize ((v / 256) mod 256 ^ N.of_nat k). intros Y. lia.
+Qed.
+
+Lemma un_bytes_mod n be v : CfiSpec.un_bytes n be v = CfiSpec.un_bytes n be (v mod 256 ^ N.of_nat n).
+Proof. unfold CfiSpec.un_bytes. now rewrite (le_n_mod n v). Qed.
+
+Lemma write_udata_un_bytes be v size bs :
+  v < 18446744073709551616 -> write_udata be v size = Ok bs ->
+  (size = 1 \/ size = 2 \/ size = 4 \/ size = 8) /\ bs = CfiSpec.un_bytes (N.to_nat size) be v /\ v < 2 ^ (8 * size).
+Proof.
+  intros Hv H. pose proof (write_udata_lt be v size bs Hv H) as Hlt.
+  unfold write_udata in H.
+  destruct (size =? 1) eqn:E1.
+  { assert (size = 1) by lia. subst. destruct (v <? 256); [|discriminate]. injection H as <-.
+    split; [auto|]. split; [apply enc_un_un_bytes|exact Hlt]. }
+  destruct (size =? 2) eqn:E2.
+  { assert (size = 2) by lia. subst. destruct (v <? two16); [|discriminate]. injection H as <-.
+    split; [auto|]. split; [apply enc_un_un_bytes|exact Hlt]. }
+  destruct (size =? 4) eqn:E4.
+  { assert (size = 4) by lia. subst. destruct (v <? two32); [|discriminate]. injection H as <-.
+    split; [auto|]. split; [apply enc_un_un_bytes|exact Hlt]. }
+  destruct (size =? 8) eqn:E8; [|discriminate].
+  assert (size = 8) by lia. subst. injection H as <-.
+  split; [auto|]. split; [apply enc_un_un_bytes|exact Hlt].
+Qed.
+
+(* signed fixed-width: the bytes are the low bytes of the 64-bit pattern, which is what CfiSpec encodes *)
+Lemma of_signed_mod bits (val : N) :
+  (bits = 16 \/ bits = 32 \/ bits = 64) -> val < 18446744073709551616 ->
+  of_signed bits (to_i64 val) mod 2 ^ bits = val mod 2 ^ bits.
+Proof.
+  intros Hb Hv. pose proof (to_i64_mod val Hv) as Hm. unfold of_signed.
+  destruct Hb as [->|[->| ->]].
+  - change (2 ^ 16) with 65536. change (Z.of_N 65536) with 65536%Z. lia.
+  - change (2 ^ 32) with 4294967296. change (Z.of_N 4294967296) with 4294967296%Z. lia.
+  - change (2 ^ 64) with 18446744073709551616. change (Z.of_N 18446744073709551616) with 18446744073709551616%Z. lia.
+Qed.
+
+Lemma in_signed_fits16 val : val < 18446744073709551616 -> in_signed 16 (to_i64 val) = true ->
+  ((val <? 2 ^ 15) || ((2 ^ 64 - 2 ^ 15 <=? val) && (val <? 2 ^ 64))) = true.
+Proof.
+  intros Hv H. pose proof (to_i64_mod val Hv) as Hm. pose proof (to_i64_range val) as Hr.
+  unfold in_signed in H. change (Z.of_N (2 ^ (16 - 1))) with 32768%Z in H.
+  change (2 ^ 15) with 32768. change (2 ^ 64) with 18446744073709551616. lia.
+Qed.
+Lemma in_signed_fits32 val : val < 18446744073709551616 -> in_signed 32 (to_i64 val) = true ->
+  ((val <? 2 ^ 31) || ((2 ^ 64 - 2 ^ 31 <=? val) && (val <? 2 ^ 64))) = true.
+Proof.
+  intros Hv H. pose proof (to_i64_mod val Hv) as Hm. pose proof (to_i64_range val) as Hr.
+  unfold in_signed in H. change (Z.of_N (2 ^ (32 - 1))) with 2147483648%Z in H.
+  change (2 ^ 31) with 2147483648. change (2 ^ 64) with 18446744073709551616. lia.
+Qed.
+
+Lemma s64_to_i64 val : val < 18446744073709551616 -> CfiSpec.s64 val = to_i64 val.
+Proof.
+  intros Hv. unfold CfiSpec.s64, to_i64, to_signed, wrapN. change (2 ^ 64) with 18446744073709551616.
+  change (2 ^ (64 - 1)) with 9223372036854775808. change (2 ^ 63) with 9223372036854775808.
+  rewrite N.mod_small by exact Hv.
+  destruct (val <? 9223372036854775808); [reflexivity|].
+  change (Z.of_N 18446744073709551616) with (2 ^ 64)%Z. reflexivity.
+Qed.
+
+Lemma write_eh_pointer_data_enc be val fmt asz bs :
+  val < 18446744073709551616 ->
+  write_eh_pointer_data be val fmt asz = Ok bs ->
+  bs = CfiSpec.enc_value fmt asz be val /\ CfiSpec.fmt_valid fmt = true /\ CfiSpec.value_fits fmt asz val = true /\
+  (fmt = 0 -> asz = 1 \/ asz = 2 \/ asz = 4 \/ asz = 8).
+Proof.
+  intros Hv H. unfold write_eh_pointer_data in H. unfold CfiSpec.enc_value, CfiSpec.value_fits.
+  destruct (fmt =? 0) eqn:F0.
+  { assert (fmt = 0) by lia. subst fmt.
+    destruct (write_udata_un_bytes be val asz bs Hv H) as (Hs & -> & Hlt).
+    split; [reflexivity|]. split; [reflexivity|]. split; [lia|auto]. }
+  destruct (fmt =? 1) eqn:F1.
+  { assert (fmt = 1) by lia. subst fmt. unfold write_uleb128 in *.
+    pose proof (write_uleb128_enc val ltac:(change (2 ^ 64) with 18446744073709551616; exact Hv)) as E.
+    unfold write_uleb128 in E. rewrite E in H. injection H as <-.
+    split; [reflexivity|]. split; [reflexivity|]. split; [change (2 ^ 64) with 18446744073709551616; lia|lia]. }
+  destruct (fmt =? 2) eqn:F2.
+  { assert (fmt = 2) by lia. subst fmt.
+    destruct (write_udata_un_bytes be val 2 bs Hv H) as (_ & -> & Hlt).
+    split; [reflexivity|]. split; [reflexivity|]. split; [change (8 * 2) with 16 in Hlt; lia|lia]. }
+  destruct (fmt =? 3) eqn:F3.
+  { assert (fmt = 3) by lia. subst fmt.
+    destruct (write_udata_un_bytes be val 4 bs Hv H) as (_ & -> & Hlt).
+    split; [reflexivity|]. split; [reflexivity|]. split; [change (8 * 4) with 32 in Hlt; lia|lia]. }
+  destruct (fmt =? 4) eqn:F4.
+  { assert (fmt = 4) by lia. subst fmt.
+    destruct (write_udata_un_bytes be val 8 bs Hv H) as (_ & -> & Hlt).
+    split; [reflexivity|]. split; [reflexivity|]. split; [change (8 * 8) with 64 in Hlt; lia|lia]. }
+  destruct (fmt =? 9) eqn:F9.
+  { assert (fmt = 9) by lia. subst fmt.
+    pose proof (write_sleb128_enc (to_i64 val) (to_i64_range val)) as E.
+    unfold write_sleb128 in *. rewrite E in H. injection H as <-.
+    split; [rewrite s64_to_i64 by exact Hv; reflexivity|]. split; [reflexivity|].
+    split; [change (2 ^ 64) with 18446744073709551616; lia|lia]. }
+  destruct (fmt =? 10) eqn:F10.
+  { assert (fmt = 10) by lia. subst fmt. unfold write_sdata in H. cbn [N.eqb Pos.eqb] in H.
+    destruct (in_signed 16 (to_i64 val)) eqn:Ei; [|discriminate]. injection H as <-.
+    split; [|split; [reflexivity|split; [apply in_signed_fits16; assumption|lia]]].
+    rewrite enc_un_un_bytes. rewrite un_bytes_mod, (un_bytes_mod 2 be val).
+    change (256 ^ N.of_nat 2) with (2 ^ 16). rewrite of_signed_mod by (auto; lia). reflexivity. }
+  destruct (fmt =? 11) eqn:F11.
+  { assert (fmt = 11) by lia. subst fmt. unfold write_sdata in H. cbn [N.eqb Pos.eqb] in H.
+    destruct (in_signed 32 (to_i64 val)) eqn:Ei; [|discriminate]. injection H as <-.
+    split; [|split; [reflexivity|split; [apply in_signed_fits32; assumption|lia]]].
+    rewrite enc_un_un_bytes. rewrite un_bytes_mod, (un_bytes_mod 4 be val).
+    change (256 ^ N.of_nat 4) with (2 ^ 32). rewrite of_signed_mod by (auto; lia). reflexivity. }
+  destruct (fmt =? 12) eqn:F12; [|discriminate].
+  assert (fmt = 12) by lia. subst fmt. unfold write_sdata in H. cbn [N.eqb Pos.eqb] in H. injection H as <-.
+  split; [|split; [reflexivity|split; [change (2 ^ 64) with 18446744073709551616; lia|lia]]].
+  rewrite enc_un_un_bytes. rewrite un_bytes_mod, (un_bytes_mod 8 be val).
+  change (256 ^ N.of_nat 8) with (2 ^ 64). rewrite of_signed_mod by (auto; lia). reflexivity.
+Qed.
+
+(* ---- the written CIE is CfiSpec.enc_cie of its translation ---- *)
+
+(* the value the writer hands to the pointer format: absolute, or relative to the field's own offset *)
+Definition ptr_raw (pos enc a : N) : N :=
+  if CfiWr.pe_application enc =? 16 then wrap64 (two64 + a - wrap64 pos) else a.
+
+Definition lsda_items (c : CfiWr.cie) : list CfiSpec.aug_item :=
+  match c_lsda_enc c with Some e => [CfiSpec.AL e] | None => [] end.
+Definition pers_items (c : CfiWr.cie) (dpos : N) : list CfiSpec.aug_item :=
+  match c_pers c with
+  | Some (e, AConst a) => [CfiSpec.AP e (ptr_raw (dpos + N.of_nat (length (lsda_items c)) + 1) e a)]
+  | Some (e, ASym _ _) => [CfiSpec.AP e 0]
+  | None => []
+  end.
+Definition aug_items_of (c : CfiWr.cie) (dpos : N) : list CfiSpec.aug_item :=
+  lsda_items c ++ pers_items c dpos
+  ++ (if negb (c_fde_enc c =? 0) then [CfiSpec.AR (c_fde_enc c)] else [])
+  ++ (if c_sig c then [CfiSpec.AS] else []).
+
+Definition cie_rec_of (c : CfiWr.cie) (dpos : N) (instr : list byte) : CfiSpec.cie_rec :=
+  CfiSpec.mkcie_rec (c_fmt64 c) (c_version c) (has_augmentation c) (aug_items_of c dpos)
+                    (c_asize c) (c_caf c) (c_daf c) (c_ra c) instr.
+
+Lemma n2b_mod v : n2b (v mod 256) = n2b v.
+Proof. apply b2n_inj. rewrite !b2n_n2b. rewrite N.mod_mod by lia. reflexivity. Qed.
+
+Lemma fmt_of_pe e : CfiSpec.fmt_of e = CfiWr.pe_format e.
+Proof. unfold CfiSpec.fmt_of, CfiWr.pe_format. change 15 with (N.ones 4). rewrite N.land_ones. reflexivity. Qed.
+
+Lemma enc_uleb_small n : n < 128 -> enc_uleb n = [n2b n].
+Proof.
+  intros H. unfold enc_uleb. change 19%nat with (S 18). cbn [enc_uleb_fuel].
+  destruct (n <? 128) eqn:E; [reflexivity|lia].
+Qed.
+
+Lemma initial_length_eq fmt64 be L il :
+  L < 18446744073709551616 -> write_initial_length fmt64 be L = Ok il ->
+  il = CfiSpec.initial_length be fmt64 L /\ L < (if fmt64 then 2 ^ 64 else 4294967280).
+Proof.
+  unfold write_initial_length, CfiSpec.initial_length. intros HL H.
+  destruct (negb fmt64 && (4294967280 <=? L) && (L <=? 4294967295)) eqn:E; [discriminate|].
+  apply bind_ok_inv in H. destruct H as (body & Hb & H). injection H as <-.
+  destruct (write_udata_un_bytes be L (word_size fmt64) body HL Hb) as (_ & -> & Hlt).
+  destruct fmt64; cbn [word_size] in *.
+  - rewrite enc_un_un_bytes. split; [reflexivity|]. change (2 ^ 64) with 18446744073709551616. lia.
+  - cbn [app]. split; [reflexivity|]. change (2 ^ (8 * 4)) with 4294967296 in Hlt. cbn [negb andb] in E. lia.
+Qed.
+
+Lemma write_eh_pointer_enc be pos a e asz pb :
+  a < 18446744073709551616 -> write_eh_pointer be pos (AConst a) e asz = Ok pb ->
+  pb = CfiSpec.enc_value (CfiWr.pe_format e) asz be (ptr_raw pos e a) /\
+  (CfiWr.pe_application e = 0 \/ CfiWr.pe_application e = 16) /\
+  CfiSpec.fmt_valid (CfiWr.pe_format e) = true /\
+  CfiSpec.value_fits (CfiWr.pe_format e) asz (ptr_raw pos e a) = true /\
+  ptr_raw pos e a < 18446744073709551616.
+Proof.
+  intros Ha H. unfold write_eh_pointer in H. unfold ptr_raw.
+  destruct (CfiWr.pe_application e =? 0) eqn:A0.
+  - cbn [bind] in H. replace (CfiWr.pe_application e =? 16) with false by lia.
+    destruct (write_eh_pointer_data_enc be a _ asz pb Ha H) as (E1 & E2 & E3 & _).
+    split; [exact E1|]. split; [left; lia|]. auto.
+  - destruct (CfiWr.pe_application e =? 16) eqn:A16; [|discriminate]. cbn [bind] in H.
+    assert (Hw : wrap64 (two64 + a - wrap64 pos) < 18446744073709551616) by apply wrap64_lt.
+    destruct (write_eh_pointer_data_enc be _ _ asz pb Hw H) as (E1 & E2 & E3 & _).
+    split; [exact E1|]. split; [right; lia|]. auto.
+Qed.
+
+(* characters of the augmentation string *)
+Lemma aug_chars_eq (c : CfiWr.cie) dpos :
+  (if is_some (c_lsda_enc c) then [x4c] else []) ++ (if is_some (c_pers c) then [x50] else [])
+  ++ (if negb (c_fde_enc c =? 0) then [x52] else []) ++ (if c_sig c then [x53] else [])
+  = map (fun i => n2b (CfiSpec.item_char i)) (aug_items_of c dpos).
+Proof.
+  unfold aug_items_of, pers_items, lsda_items.
+  destruct (c_lsda_enc c); destruct (c_pers c) as [[e [a|s d]]|]; destruct (negb (c_fde_enc c =? 0)); destruct (c_sig c);
+    reflexivity.
+Qed.
+
+Lemma aug_items_len (c : CfiWr.cie) dpos :
+  N.of_nat (length (aug_items_of c dpos)) =
+  (if is_some (c_lsda_enc c) then 1 else 0) + (if is_some (c_pers c) then 1 else 0)
+  + (if negb (c_fde_enc c =? 0) then 1 else 0) + (if c_sig c then 1 else 0).
+Proof.
+  unfold aug_items_of, pers_items, lsda_items.
+  destruct (c_lsda_enc c); destruct (c_pers c) as [[e [a|s d]]|]; destruct (negb (c_fde_enc c =? 0)); destruct (c_sig c);
+    reflexivity.
+Qed.
+
+(* augmentation data *)
+Lemma aug_data_eq be (c : CfiWr.cie) dpos pb :
+  match c_pers c with
+  | Some (e, a) =>
+      write_eh_pointer be (dpos + len (match c_lsda_enc c with Some e => [n2b e] | None => [] end) + 1) a e (c_asize c) = Ok pb
+  | None => pb = []
+  end ->
+  match c_pers c with Some (_, AConst a) => a < 18446744073709551616 | _ => True end ->
+  (match c_lsda_enc c with Some e => [n2b e] | None => [] end)
+  ++ (match c_pers c with Some (e, _) => n2b e :: pb | None => [] end)
+  ++ (if negb (c_fde_enc c =? 0) then [n2b (c_fde_enc c)] else [])
+  = concat (map (CfiSpec.item_data (c_asize c) be) (aug_items_of c dpos)).
+Proof.
+  intros Hpb Ha. unfold aug_items_of, pers_items, lsda_items in *.
+  assert (Hl : len (match c_lsda_enc c with Some e => [n2b e] | None => [] end)
+               = N.of_nat (length (match c_lsda_enc c with Some e => [CfiSpec.AL e] | None => [] end)))
+    by (destruct (c_lsda_enc c); reflexivity).
+  rewrite Hl in Hpb.
+  destruct (c_pers c) as [[e [a|s d]]|].
+  - destruct (write_eh_pointer_enc be _ a e (c_asize c) pb Ha Hpb) as (-> & _).
+    destruct (c_lsda_enc c); destruct (negb (c_fde_enc c =? 0)); destruct (c_sig c);
+      cbn [app map concat CfiSpec.item_data length]; rewrite ?app_nil_r, fmt_of_pe; reflexivity.
+  - cbn [write_eh_pointer] in Hpb. discriminate.
+  - subst pb. destruct (c_lsda_enc c); destruct (negb (c_fde_enc c =? 0)); destruct (c_sig c); reflexivity.
+Qed.
+
+Require GV.Proofs.CfiRdBase GV.Proofs.CfiRdEnt.
+Module RdE := GV.Proofs.CfiRdEnt.
+
+Definition cie_sp (eh be : bool) (c : CfiWr.cie) : CfiSpec.sparams := CfiSpec.mksp eh be (c_asize c).
+Definition id_size_of (eh fmt64 : bool) : N := if eh then 4 else if fmt64 then 8 else 4.
+
+Definition cie_data_pos (eh be : bool) (pos : N) (c : CfiWr.cie) : N :=
+  pos + ilen_size (c_fmt64 c) + id_size_of eh (c_fmt64 c)
+  + CfiRd.nlen (RdE.cie_pre (cie_sp eh be c) (cie_rec_of c 0 [])) + 1.
+
+Lemma cie_pre_indep eh be c d1 i1 d2 i2 :
+  RdE.cie_pre (cie_sp eh be c) (cie_rec_of c d1 i1) = RdE.cie_pre (cie_sp eh be c) (cie_rec_of c d2 i2).
+Proof.
+  unfold RdE.cie_pre, RdE.aug_string, RdE.item_chars, cie_rec_of.
+  cbn [CfiSpec.c_ver CfiSpec.c_z CfiSpec.c_items CfiSpec.c_asz CfiSpec.c_caf CfiSpec.c_daf CfiSpec.c_rar].
+  rewrite <- (aug_chars_eq c d1), <- (aug_chars_eq c d2). reflexivity.
+Qed.
+
+Lemma cie_asz_sp eh be c d i : CfiSpec.cie_asz (cie_sp eh be c) (cie_rec_of c d i) = c_asize c.
+Proof. unfold CfiSpec.cie_asz, cie_sp, cie_rec_of. cbn. destruct (negb eh && (c_version c =? 4)); reflexivity. Qed.
+
+Lemma cie_write_enc dbg be eh pos (c : CfiWr.cie) bs :
+  cie_wf c = true -> pos + len bs < 18446744073709551616 ->
+  cie_write dbg be eh pos c = Ok bs ->
+  exists insns pad,
+    write_insns dbg (c_daf c) (c_insns c) = Ok insns /\ all_nop pad = true /\ len pad < c_asize c /\
+    bs = CfiSpec.enc_cie (cie_sp eh be c) (cie_rec_of c (cie_data_pos eh be pos c) (insns ++ pad)) /\
+    CfiRd.nlen (RdE.cie_body (CfiRd.mkcfg eh be (c_asize c) (CfiRd.mksb (Some 0) None None))
+                             (cie_rec_of c (cie_data_pos eh be pos c) (insns ++ pad)))
+    < (if c_fmt64 c then 2 ^ 64 else 4294967280).
+Proof.
+  intros Hwf Hfit H.
+  pose proof (cie_write_ok_asz _ _ _ _ _ _ H) as Hasz.
+  destruct (asz_cases_pow2 _ Hasz) as [Hu8 Hp2].
+  pose proof Hwf as Hwf0. unfold cie_wf in Hwf. split_wf Hwf.
+  rename W into Hinsns, W0 into Hfe, W1 into Hle, W2 into Hpe, W3 into Hra, W4 into Hdaf, W5 into Hcaf, W6 into Hasz8.
+  unfold cie_write in H. cbv zeta in H.
+  destruct (if eh then negb (c_version c =? 1)
+            else negb ((c_version c =? 1) || (c_version c =? 3) || (c_version c =? 4))) eqn:Ever; [discriminate|].
+  destruct (version_cases eh _ Ever) as [Hver Hveh].
+  assert (Hv4 : (4 <=? c_version c) = (negb eh && (c_version c =? 4))).
+  { destruct eh; [rewrite (Hveh eq_refl); reflexivity|cbn [negb andb]; lia]. }
+  rewrite Hv4 in H.
+  apply is_u8_iff in Hcaf. apply is_i8_iff in Hdaf. apply is_u16_iff in Hra.
+  rewrite (write_uleb128_enc (c_caf c)) in H by (change (2 ^ 64) with 18446744073709551616; lia). cbn [bind] in H.
+  rewrite (write_sleb128_enc (c_daf c)) in H by lia. cbn [bind] in H.
+  assert (Hrab : (if c_version c =? 1
+                  then if c_ra c <? 256 then Ok [n2b (c_ra c)] else Err WValueTooLarge
+                  else write_uleb128 (c_ra c))
+                 = (if c_version c =? 1 then (if c_ra c <? 256 then Ok [n2b (c_ra c)] else Err WValueTooLarge)
+                    else Ok (enc_uleb (c_ra c)))).
+  { destruct (c_version c =? 1); [reflexivity|]. apply write_uleb128_enc. change (2 ^ 64) with 18446744073709551616. lia. }
+  rewrite Hrab in H. clear Hrab.
+  apply bind_ok_inv in H. destruct H as (rab & Hrab & H).
+  assert (Erab : rab = if c_version c =? 1 then [n2b (c_ra c)] else enc_uleb (c_ra c)).
+  { destruct (c_version c =? 1); [destruct (c_ra c <? 256); [|discriminate]|]; injection Hrab as <-; reflexivity. }
+  set (dpos := cie_data_pos eh be pos c).
+  set (sp := cie_sp eh be c).
+  (* the part before the augmentation data *)
+  set (PRE := (if eh then enc_un 4 be 0 else if c_fmt64 c then enc_un 8 be (two64 - 1) else enc_un 4 be (two32 - 1)) ++
+              [n2b (wrap8 (c_version c))] ++
+              ((if has_augmentation c
+                then [x7a] ++ (if is_some (c_lsda_enc c) then [x4c] else []) ++
+                     (if is_some (c_pers c) then [x50] else []) ++
+                     (if negb (c_fde_enc c =? 0) then [x52] else []) ++ (if c_sig c then [x53] else [])
+                else []) ++ [x00]) ++
+              (if negb eh && (c_version c =? 4) then [n2b (c_asize c); x00] else []) ++
+              enc_uleb (c_caf c) ++ CfiSpec.enc_sleb (c_daf c) ++ rab) in H.
+  assert (HPRE : forall d i, PRE = CfiSpec.cie_id sp (c_fmt64 c) ++ RdE.cie_pre sp (cie_rec_of c d i)).
+  { intros d i. unfold PRE, CfiSpec.cie_id, RdE.cie_pre, RdE.aug_string, RdE.item_chars, sp, cie_sp, cie_rec_of.
+    cbn [CfiSpec.s_eh CfiSpec.s_be CfiSpec.c_ver CfiSpec.c_z CfiSpec.c_items CfiSpec.c_asz CfiSpec.c_caf CfiSpec.c_daf CfiSpec.c_rar].
+    rewrite <- (aug_chars_eq c d), Erab. unfold wrap8. rewrite n2b_mod.
+    f_equal; try (destruct eh; [|destruct (c_fmt64 c)]; apply enc_un_un_bytes).
+    change (n2b 122) with x7a. change (n2b 0) with x00.
+    destruct (has_augmentation c) eqn:Ea.
+    - repeat rewrite <- app_assoc. reflexivity.
+    - destruct (no_aug_fields c Ea) as (E1 & E2 & E3 & E4). rewrite E1, E2, E3, E4. reflexivity. }
+  apply bind_ok_inv in H. destruct H as (augdata & Haug & H).
+  apply bind_ok_inv in H. destruct H as (insns & Hins & H).
+  apply (close_entry_spec dbg be _ _ _ _ Hu8 Hp2) in H.
+  destruct H as (il & pad & Hbs & Hil & Hlen & Hnop & Hpad & Hmod).
+  exists insns, pad. split; [exact Hins|]. split; [exact Hnop|]. split; [exact Hpad|].
+  set (cr := cie_rec_of c dpos (insns ++ pad)).
+  assert (HlenPRE : len PRE + 1 = id_size_of eh (c_fmt64 c) + CfiRd.nlen (RdE.cie_pre sp (cie_rec_of c 0 [])) + 1).
+  { rewrite (HPRE 0 []). rewrite len_app. f_equal. f_equal.
+    unfold CfiSpec.cie_id, id_size_of, sp, cie_sp. cbn [CfiSpec.s_eh CfiSpec.s_be]. unfold len.
+    destruct eh; [|destruct (c_fmt64 c)]; rewrite CfiRdBase.un_bytes_length; reflexivity. }
+  (* the augmentation data *)
+  assert (Haugp : augdata = RdE.cie_augpart sp cr).
+  { unfold RdE.cie_augpart, cr, sp. cbv zeta. rewrite cie_asz_sp. unfold RdE.items_data.
+    cbn [cie_rec_of CfiSpec.c_z CfiSpec.c_items]. unfold cie_sp. cbn [CfiSpec.s_be].
+    destruct (has_augmentation c) eqn:Ea.
+    - apply bind_ok_inv in Haug. destruct Haug as (pp & Hpp & Haug).
+      apply with_aug_len_inv in Haug. destruct Haug as [Hdl ->].
+      assert (Hp : exists pb, pp = match c_pers c with Some (e, _) => n2b e :: pb | None => [] end /\
+                   match c_pers c with
+                   | Some (e, a) => write_eh_pointer be
+                        (dpos + len (match c_lsda_enc c with Some e => [n2b e] | None => [] end) + 1) a e (c_asize c) = Ok pb
+                   | None => pb = []
+                   end /\ (length pb <= 10)%nat).
+      { destruct (c_pers c) as [[e a]|].
+        - apply bind_ok_inv in Hpp. destruct Hpp as (pb & Hpb & Hpp). injection Hpp as <-.
+          exists pb. split; [reflexivity|]. split; [|eapply write_eh_pointer_len; exact Hpb].
+          rewrite <- Hpb. f_equal. unfold dpos, cie_data_pos. fold sp. lia.
+        - injection Hpp as <-. exists []. split; [reflexivity|]. split; [reflexivity|cbn; lia]. }
+      destruct Hp as (pb & -> & Hpb & Hpbl).
+      assert (Hpa : match c_pers c with Some (_, AConst a) => a < 18446744073709551616 | _ => True end).
+      { destruct (c_pers c) as [[e [a|s d]]|]; try exact I. apply andb_true_iff in Hpe. destruct Hpe as [_ Ha].
+        cbn [addr_wf] in Ha. lia. }
+      rewrite (aug_data_eq be c dpos pb Hpb Hpa).
+      assert (Hsmall : CfiSpec.blen (concat (map (CfiSpec.item_data (c_asize c) be) (aug_items_of c dpos))) < 128).
+      { rewrite <- (aug_data_eq be c dpos pb Hpb Hpa). unfold CfiSpec.blen. rewrite !app_length.
+        destruct (c_lsda_enc c), (c_pers c) as [[? ?]|], (negb (c_fde_enc c =? 0)); cbn [length]; lia. }
+      rewrite enc_uleb_small by exact Hsmall. unfold len, CfiSpec.blen. reflexivity.
+    - injection Haug as <-. reflexivity. }
+  assert (Hbody : (PRE ++ augdata ++ insns) ++ pad = CfiSpec.cie_id sp (c_fmt64 c) ++ CfiSpec.cie_tail sp cr).
+  { rewrite RdE.cie_tail_split, (HPRE dpos (insns ++ pad)), Haugp. fold cr.
+    unfold cr at 3. cbn [cie_rec_of CfiSpec.c_instr]. repeat rewrite <- app_assoc. reflexivity. }
+  assert (HL : len ((PRE ++ augdata ++ insns) ++ pad) < 18446744073709551616).
+  { rewrite Hbs in Hfit. rewrite len_app in Hfit. lia. }
+  destruct (initial_length_eq _ _ _ _ HL Hil) as [Eil Hbound].
+  split.
+  - rewrite Hbs, Eil, Hbody. unfold CfiSpec.enc_cie. cbv zeta.
+    unfold cr at 3 4. cbn [cie_rec_of CfiSpec.c_fmt64]. unfold sp at 1 3, cie_sp. cbn [CfiSpec.s_be].
+    unfold len, CfiSpec.blen. reflexivity.
+  - unfold RdE.cie_body. change (RdE.sp_of _) with sp. fold cr.
+    change (CfiSpec.c_fmt64 cr) with (c_fmt64 c). rewrite <- Hbody. exact Hbound.
+Qed.
